@@ -653,6 +653,25 @@ func GenConfig(t *rapid.T, label string, kind Kind, plan Plan) *Config {
 				c.Protocols = append(c.Protocols, p)
 			}
 		}
+		if kind == HTTP {
+			// the library's ready-made selectors for HTTPUpgrader.Protocol
+			switch rapid.IntRange(0, 3).Draw(t, label+".protohelper") {
+			case 1, 2:
+				c.ProtoHelper = ProtoFromSlice
+				// SelectFromSlice switches from a scan to a map above 16 names:
+				// pad with names nobody offers to 0..15, exactly 16, 17 or more
+				pad := rapid.SampledFrom([]int{0, 0, 3, 16 - len(c.Protocols), 17 - len(c.Protocols), 17, 30}).Draw(t, label+".pad")
+				at := rapid.IntRange(0, len(c.Protocols)).Draw(t, label+".padat")
+				var fill []string
+				for i := 0; i < pad; i++ {
+					fill = append(fill, "pad-"+string(rune('a'+i%26))+string(rune('a'+i/26)))
+				}
+				c.Protocols = append(append(append([]string(nil), c.Protocols[:at]...), fill...), c.Protocols[at:]...)
+			case 3:
+				c.ProtoHelper = ProtoEqual
+				c.Protocols = []string{rapid.SampledFrom(protoVocab).Draw(t, label+".equal")}
+			}
+		}
 	}
 	c.ExtMode = ExtMode(rapid.IntRange(0, 2).Draw(t, label+".extmode"))
 	if kind == Raw {
